@@ -8,6 +8,9 @@ is preceded on every path by the row validators (NOT NULL/PK/UNIQUE/CHECK) of it
 on depends on the destination schema only, and each validator call is decided by its own flag only;
 (d) hash-index probes of the uniqueness validators are keyed in the index's column order;
 (e) per-constraint vectors consumed by position are filled on every iteration (REPLACE);
+(e') a counter used as a position in a per-constraint collection comes from an enumeration of the unfiltered sequence:
+no Index / get whose index is the counter of `enumerate()` applied behind flatten / filter / filter_map / skip (the
+counter then counts the survivors, not the constraints);
 (f) "which constraint's index is affected by this UPDATE" is decided existentially;
 (g) validate-all-then-apply needs a validator that sees the statement's rows together: where a per-row uniqueness
 validator runs in a loop that does not itself apply the rows (each row is compared with the table as it was before the
@@ -186,6 +189,7 @@ def run(ctx):
     shared.key_order_rule(ctx, 'C10.d2')
     shared.aligned_rule(ctx, 'C10.e', lambda f: f.nice.startswith('vibesql_executor::insert::') or f.nice.startswith('vibesql_executor::update::constraints'), floor=1)
     batch_uniqueness_rule(ctx)
+    filtered_enumerate_rule(ctx)
     unique_index_creation_rule(ctx)
     alter_validates_existing_rows_rule(ctx)
     shared.quantifier_rule(ctx, 'C10.f', lambda f: f.nice.startswith('vibesql_storage::table::') or f.nice.startswith('vibesql_executor::insert::')
@@ -465,3 +469,39 @@ def alter_validates_existing_rows_rule(ctx):
     if not okc:
         ctx.finding('i/add_column/not-null', 'ALTER TABLE ADD COLUMN c T NOT NULL on a table with rows fills the new NOT NULL column with NULL (no error exit decided by '
                     'column_def.nullable and the row count before add_column)', ac.loc)
+
+
+FILTERS = re.compile(r'\b(flatten|filter|filter_map|flat_map|skip|skip_while|take_while|step_by)\(')
+
+
+def filtered_enumerate_rule(ctx):
+    from ..engine.symexpr import Sym
+    from . import shared
+    prog = ctx.prog
+    ctx.rule("C10.e'", 'constraint code (executor insert:: / update::constraints, storage table::indexes): no Index::index / index_mut / get / get_mut whose index expression is the '
+             'counter of an enumerate() whose receiver contains flatten / filter / filter_map / flat_map / skip / skip_while / take_while / step_by')
+    nenum = 0
+    for f in prog.fns.values():
+        if shared.is_test(f) or not (f.nice.startswith('vibesql_executor::insert::') or f.nice.startswith('vibesql_executor::update::constraints')
+                                     or f.nice.startswith('vibesql_storage::table::indexes')):
+            continue
+        s = None
+        for i, t in f.calls():
+            cn = callee_name(t) or ''
+            if cn.endswith('Iterator::enumerate'):
+                nenum += 1
+            if cn.rsplit('::', 1)[-1].split('<')[0] not in ('index', 'index_mut', 'get', 'get_mut') or len(t['args']) < 2:
+                continue
+            s = s or Sym(f)
+            idx = s.op(t['args'][1])
+            m = re.search(r'enumerate\((.*)\)\)?@Some\.0\.0', idx)
+            if not m:
+                continue
+            bad = FILTERS.search(m.group(1))
+            short = re.sub(r"<impl [^>]*>::", '', f.nice).rsplit('::', 1)[-1]
+            ctx.instance(f"e'/{short}@{t['l']}", {'rule': "C10.e'", 'fn': f.nice, 'loc': f'{f.file}:{t["l"]}', 'counter_of': m.group(1)[:100], 'unfiltered': not bad})
+            if bad:
+                ctx.finding(f"e'/{short}/{bad.group(1)}", f'{f.nice} indexes a per-constraint collection with the counter of enumerate() taken behind {bad.group(1)}(): the counter numbers '
+                            'the surviving elements, so after a skipped element (a UNIQUE key with a NULL) every later constraint is recorded one slot too low and duplicates '
+                            'within one statement are missed', f'{f.file}:{t["l"]}')
+    ctx.floor("C10.e' enumerate() calls in constraint code", nenum, 4)
